@@ -1,12 +1,33 @@
 use std::sync::LazyLock;
 
-use chrono::{Duration, Local, NaiveDate, NaiveDateTime, Timelike};
+use chrono::{Duration, Local, NaiveDate, NaiveDateTime, TimeZone, Timelike};
 use chrono_english::{parse_date_string, Dialect};
 use regex::Regex;
 
 static DATE_REGEX: LazyLock<Regex> = LazyLock::new(|| {
     Regex::new("([0-9]{4})(-|:)([0-9]{1,2})(-|:)([0-9]{1,2}) ?([0-9]{1,2})?:?([0-9]{1,2})?:?([0-9]{1,2})?").unwrap()
 });
+
+/// The local wall-clock time of a file time stamp, if it can be expressed as a date at all.
+pub fn system_time_to_local(time: std::time::SystemTime) -> Option<NaiveDateTime> {
+    let (secs, nanos) = match time.duration_since(std::time::UNIX_EPOCH) {
+        Ok(after) => (i64::try_from(after.as_secs()).ok()?, after.subsec_nanos()),
+        Err(before) => {
+            let before = before.duration();
+            let secs = i64::try_from(before.as_secs()).ok()?;
+            match before.subsec_nanos() {
+                0 => (-secs, 0),
+                nanos => (-secs - 1, 1_000_000_000 - nanos),
+            }
+        }
+    };
+
+    match Local.timestamp_opt(secs, nanos) {
+        chrono::LocalResult::Single(dt) => Some(dt.naive_local()),
+        chrono::LocalResult::Ambiguous(dt, _) => Some(dt.naive_local()),
+        chrono::LocalResult::None => None,
+    }
+}
 
 pub fn parse_datetime(s: &str) -> Result<(NaiveDateTime, NaiveDateTime), String> {
     if s == "today" {
